@@ -40,7 +40,7 @@ func zxUpdateAcc(l zxLayout, prev []byte, p zxPointParams) []byte {
 // >= ts and into no other; every other period newer than the bound keeps its state; a point whose
 // period is not newer than the bound is not stored; no period newer than the bound is dropped.
 //
-//zx:harness prop=C01+C14 id=U tier=quick env=sum shard=e:2,res:2,nS:4,hasTB:2,tsK:6 ne=2 quick.below=1 quick.above=2 quick.tbbelow=0 quick.tbabove=1 N=3 thorough.N=4 thorough.ne=4 thorough.nres=3 thorough.shard=e:4,res:3,nS:4
+//zx:harness prop=C01+C14 id=U tier=quick env=sum shard=e:2,res:2,nS:4,hasTB:2,tsK:6 ne=2 quick.below=1 quick.above=2 quick.tbbelow=0 quick.tbabove=1 N=3 thorough.N=4 thorough.ne=4 thorough.nres=3 thorough.below=2 thorough.above=3 thorough.tbbelow=1 thorough.tbabove=2 thorough.shard=e:4,res:3,nS:5,hasTB:2,tsK:10
 func zxC01Update() {
 	l := zxLayoutFor()
 	res := zxRes()
@@ -68,23 +68,22 @@ func zxC01Update() {
 		vrtAssert(!r.Until().After(top), "result does not extend beyond max(old until, point period)")
 	}
 	stored := !hasTB || T.After(tbr)
-	all := true
 	for k := 0; k <= 2*N+8; k++ {
 		t := top.Add(-time.Duration(k) * res)
 		live := !hasTB || t.After(tbr)
 		got := zxAccAt(r, w, res, t)
 		prev := zxAccAt(old, w, res, t)
+		// one obligation per period: small formulas over that period's bytes only (they slice
+		// and cache well)
 		switch {
 		case t.Equal(T) && stored:
-			all = vrtAnd(all, zxSameAcc(l, got, zxUpdateAcc(l, prev, p)))
+			vrtAssert(zxSameAcc(l, got, zxUpdateAcc(l, prev, p)), "the point is folded into the period ending at the smallest multiple of the resolution >= ts ("+l.name+")")
 		case live:
-			all = vrtAnd(all, zxSameAcc(l, got, prev))
+			vrtAssert(zxSameAcc(l, got, prev), "every other live period keeps its state ("+l.name+")")
 		case t.Equal(T):
-			// expired period of the point: the point must not be stored
-			all = vrtAnd(all, vrtOr(zxUnset(l, got), zxSameAcc(l, got, prev)))
+			vrtAssert(vrtOr(zxUnset(l, got), zxSameAcc(l, got, prev)), "a point whose period is not newer than the truncation bound is not stored ("+l.name+")")
 		}
 	}
-	vrtAssert(all, "the point is folded into its own period only, live periods keep their state, an expired point is not stored ("+l.name+")")
 	vrtReach("U")
 }
 
@@ -93,7 +92,7 @@ func zxC01Update() {
 // with commutativity and associativity of Merge (C05.M2/M3) this gives independence from any
 // split of a key's updates between file and memory (DESIGN §5 C03.S). Real mode for sums.
 //
-//zx:harness prop=C03+C01 id=C03.S tier=quick mode=real env=sum shard=e:2,res:2,nS:4,hasTB:2,tsK:6 ne=2 quick.below=1 quick.above=2 quick.tbbelow=0 quick.tbabove=1 N=3 thorough.N=4 thorough.ne=4 thorough.nres=3 thorough.shard=e:4,res:3,nS:4
+//zx:harness prop=C03+C01 id=C03.S tier=quick mode=real env=sum shard=e:2,res:2,nS:4,hasTB:2,tsK:6 ne=2 quick.below=1 quick.above=2 quick.tbbelow=0 quick.tbabove=1 N=3 thorough.N=4 thorough.ne=4 thorough.nres=3 thorough.below=2 thorough.above=3 thorough.tbbelow=1 thorough.tbabove=2 thorough.shard=e:4,res:3,nS:5,hasTB:2,tsK:10
 func zxC03Split() {
 	l := zxLayoutFor()
 	res := zxRes()
@@ -117,14 +116,12 @@ func zxC03Split() {
 	if len(disk) > 0 && disk.Until().After(top) {
 		top = disk.Until()
 	}
-	all := true
 	for k := 0; k <= 2*N+8; k++ {
 		t := top.Add(-time.Duration(k) * res)
 		if hasTB && !t.After(tbr) {
 			continue
 		}
-		all = vrtAnd(all, zxSameAcc(l, zxAccAt(direct, w, res, t), zxAccAt(merged, w, res, t)))
+		vrtAssert(zxSameAcc(l, zxAccAt(direct, w, res, t), zxAccAt(merged, w, res, t)), "disk.Merge(memory) = direct update in every live period ("+l.name+")")
 	}
-	vrtAssert(all, "disk.Merge(memory) = direct update in every live period ("+l.name+")")
 	vrtReach("C03.S")
 }
